@@ -160,6 +160,60 @@ func c09HistCheck(c *fw.Ctx, s c09Spec) *fw.Violation {
 	return v
 }
 
+// ----- object histories: aliases, iteration and printing interleaved with inserts through another reference -----
+
+func c09ObjStmts() []struct {
+	name string
+	st   func() Stmt
+} {
+	forIn := func(v, w string, it Expr, tag string) Stmt {
+		if w == "" {
+			return &ForIn{V: v, Iter: it, Body: Pr(S(tag), V(v))}
+		}
+		return &ForIn{V: v, W: w, Iter: it, Body: Pr(S(tag), V(v), V(w))}
+	}
+	return []struct {
+		name string
+		st   func() Stmt
+	}{
+		{"b.y = 2", func() Stmt { return Ex(Asg("=", Mem(V("b"), "y"), N("2"))) }},
+		{"a.x = 3", func() Stmt { return Ex(Asg("=", Mem(V("a"), "x"), N("3"))) }},
+		{"for (k in a)", func() Stmt { return forIn("k", "", V("a"), "a") }},
+		{"for (k, v in b)", func() Stmt { return forIn("k", "v", V("b"), "b") }},
+		{"print a", func() Stmt { return Pr(S("print"), V("a")) }},
+		{"add(a, 'z')", func() Stmt { return Ex(CallE(V("add"), V("a"), S("z"))) }},
+		{"lengths", func() Stmt { return Pr(S("len"), CallE(Mem(V("a"), "length")), CallE(Mem(V("b"), "length")), CallE(Mem(V("e"), "length"))) }},
+		{"b = {}", func() Stmt { return Ex(Asg("=", V("b"), &ObjLit{})) }},
+		{"pluck", func() Stmt {
+			return Blk(Ex(Asg("=", V("c"), CallE(Mem(V("a"), "pluck"), S("m"), S("y")))), Ex(Asg("=", Mem(V("c"), "w"), N("1"))), Pr(S("c"), V("c")))
+		}},
+		{"alias = e; alias.q = 1", func() Stmt { return Blk(Ex(Asg("=", V("alias"), V("e"))), Ex(Asg("=", Mem(V("alias"), "q"), N("1")))) }},
+		{"for (k in e)", func() Stmt { return forIn("k", "", V("e"), "e") }},
+		{"b = a", func() Stmt { return Ex(Asg("=", V("b"), V("a"))) }},
+	}
+}
+
+var c09Add = &Func{Name: "add", Params: []string{"t", "k"}, Body: Blk(Ex(&Postfix{"++", Idx(V("t"), V("k"))}))}
+
+func c09ObjProg(s c09Spec) *progCase {
+	stmts := c09ObjStmts()
+	body := []Stmt{Ex(Asg("=", V("a"), &ObjLit{Keys: []string{"m"}, Vals: []Expr{N("1")}})), Ex(Asg("=", V("b"), V("a"))), Ex(Asg("=", V("e"), &ObjLit{}))}
+	for _, i := range s.Seq {
+		body = append(body, stmts[i].st())
+	}
+	body = append(body, Pr(S("end"), V("a"), V("b"), V("e")))
+	return &progCase{P: &Program{Funcs: []*Func{c09Add}, Rules: []*Rule{{Kind: "BEGIN", Body: Blk(body...)}}}}
+}
+
+func c09ObjCheck(c *fw.Ctx, s c09Spec) *fw.Violation {
+	pc := c09ObjProg(s)
+	v, res, skipped := pc.check(c)
+	if !skipped && v == nil {
+		c.Outcome("objhist:" + res.Kind)
+	}
+	return v
+}
+
 func init() {
 	var docs1, docs2 *docGen
 	setup := func() {
@@ -173,9 +227,9 @@ func init() {
 		ID: "C09",
 		Rule: "documents (all trees of depth <= 1, thorough also depth 2) x target paths of <= 3 steps over .a .b ['a'] and the indices 0 1 -1 2 5 0.9 -0.5 1048577, rooted at $, at a variable aliasing the document and at a fresh variable, x 7 stores (=, +=, prefix and postfix ++/--, storing a container) and 9 reads (plain, non-mutating methods, operators); " +
 			"after the operation the program shows the result, $, the alias and the fresh variable, ENDFILE shows $ again and the JSON output is compared with the model's document; " +
-			"all histories of <= L statements over 14 aliasing / mutating statements (copy, share, index and member stores, push/pop through aliases, a mutating callee, loop variables, padding) on three documents, showing every variable after every statement; " +
+			"all histories of <= L statements over 14 aliasing / mutating statements (copy, share, index and member stores, push/pop through aliases, a mutating callee, loop variables, padding) on three documents, showing every variable after every statement; all histories of L statements over 12 object statements (inserts through an alias or a callee, iteration and printing through the other name, pluck, rebinding); " +
 			"oracle: whole-store equality with the reference interpreter (DESIGN.md 3.10); states = (read/write, root, path length, outcome); non-trivial = same",
-		Plan: func(t fw.Tier) int { return len(c09Roots)*nSt + len(c09Roots) + len(c09HistStmts())*len(c09HistDocs) },
+		Plan: func(t fw.Tier) int { return len(c09Roots)*nSt + len(c09Roots) + len(c09HistStmts())*len(c09HistDocs) + len(c09ObjStmts()) },
 		Bound: func(t fw.Tier) string {
 			setup()
 			if t == fw.Thorough {
@@ -227,6 +281,18 @@ func init() {
 				return
 			}
 			u -= nPathUnits
+			if u >= len(c09HistStmts())*len(c09HistDocs) {
+				first := u - len(c09HistStmts())*len(c09HistDocs)
+				L := c.Pick(4, 5)
+				eachSeq(len(c09ObjStmts()), L, first, func(seq []int) {
+					if len(seq) != L {
+						return
+					}
+					s := c09Spec{Form: "objhist", Seq: append([]int{}, seq...)}
+					c.Do(func() any { s.Text = c09ObjProg(s).source(); return s }, func() *fw.Violation { return c09ObjCheck(c, s) })
+				})
+				return
+			}
 			n := len(c09HistStmts())
 			first, doc := u/len(c09HistDocs), c09HistDocs[u%len(c09HistDocs)]
 			L := c.Pick(4, 5)
@@ -250,6 +316,9 @@ func init() {
 			}
 			if s.Form == "hist" {
 				return c09HistCheck(c, s)
+			}
+			if s.Form == "objhist" {
+				return c09ObjCheck(c, s)
 			}
 			return c09PathCheck(c, s)
 		},
